@@ -79,7 +79,7 @@ func ParseAction(raw json.RawMessage) (Action, error) {
 		if err = get(1, &a.Node); err == nil {
 			err = get(2, &a.Tracked)
 		}
-	case "seed", "apply", "bpend":
+	case "seed", "apply", "bpend", "walk":
 	default:
 		err = fmt.Errorf("unknown action %q", a.Kind)
 	}
